@@ -132,7 +132,7 @@ func (p *Path) TreePrefix() string {
 				return p.parent.TreePrefix() + p.relativePath + "/"
 			}
 		case p.relativePath != "":
-			return p.relativePath + "/"
+			return rootTreePrefix(p.relativePath)
 		default:
 			// We don't know how this tree can be reached, so name
 			// it by its OID.
@@ -151,6 +151,29 @@ func (p *Path) TreePrefix() string {
 	default:
 		return "???"
 	}
+}
+
+// rootTreePrefix returns the prefix to use for the entries of a tree
+// that was named directly by `name` (a reference name or a
+// command-line argument). If `name` is already of the form
+// `<rev>:<path>`, then further path components can be appended to it;
+// otherwise, they have to be separated from it by a colon.
+func rootTreePrefix(name string) string {
+	depth := 0
+	for i := 0; i < len(name); i++ {
+		switch {
+		case name[i] == '{':
+			depth++
+		case name[i] == '}' && depth > 0:
+			depth--
+		case name[i] == ':' && depth == 0:
+			if i == len(name)-1 || name[len(name)-1] == '/' {
+				return name
+			}
+			return name + "/"
+		}
+	}
+	return name + ":"
 }
 
 // Return a human-readable path for this object if we can do better
